@@ -137,7 +137,12 @@ def confirm_and_store(prop, module, factory, kwargs, name, h, trace, v):
 
 
 def store_lasso(prop, module, factory, kwargs, name, h, stem, loop, v):
-    from engine import explore
+    from engine import explore, fhdl
+    # confirm on migen's evaluator: stem + two loop iterations conform cycle by cycle, and the product state repeats
+    _, _, st1 = explore.run_trace(h, stem + loop, on_sim=not getattr(h, "no_sim_replay", False))
+    _, _, st2 = explore.run_trace(h, stem + loop + loop, on_sim=not getattr(h, "no_sim_replay", False))
+    if st1 != st2:
+        raise fhdl.EngineError("lasso not reproduced on replay")
     art = {"property": prop, "module": module, "factory": factory, "kwargs": jsonable(kwargs), "config": name, "kind": "lasso",
            "trace": jsonable(stem), "loop": jsonable(loop), "violation": v.as_dict(),
            "readable": {"stem": compact_trace(h, stem, 400), "loop": compact_trace(h, loop, 400)}}
